@@ -4,7 +4,7 @@ from .. import env, cli, histgen, wire
 from ..runner import Prop, Stage, Result
 from .c08 import gen_chatter
 
-PROFILE = dict(reuse=0.6, weights=dict(newer=4, delete=14, bind=12, message=48, server_event=8, sync=6, enum=8, title=6))
+PROFILE = dict(reuse=0.6, weights=dict(repeat=4, newer=4, delete=14, bind=12, message=48, server_event=8, sync=6, enum=8, title=6))
 PROMPT = b'wl debug $ '
 MARKER = 'WDV-CHILD-STDOUT-MARKER %d\n'
 ARGS = ['-f', '-r', '--gdb', '-g', '-l', 'x', '', ' ', 'a b', '"q"', "it's", '\\', '--run', '-p', '-C', '--', '-h', '*', '$HOME', 'é', '-b', '!', '--supress']
